@@ -20,6 +20,7 @@ EXPLANATION = (
     "(R3) for every cached_property / lazy memo C of a class and every attribute a derivation writes on the copy, if C reads that attribute the "
     "copy's cached C is dropped on that path, and the invalidation helper resolves cached properties through the MRO (inherited ones included); "
     "(R4) every derivation returns the clone or a newly constructed object, never the receiver (sole exemption: add_nodes() with no arguments)."
+    ' (R6) values handed out by process-wide memo tables (functools.lru_cache/cache functions, module-level containers in nodes/ and graph/) are immutable, or no caller edits them in place, returns them as its own or stores them in another object: a memoised dict shared by every node over one function would let a derived object change its receiver and its siblings.'
 )
 NOT_DECIDED = "Equality of run results before/after as such; objects reachable only through user-supplied values (bound objects are shared intentionally)."
 
